@@ -59,33 +59,35 @@ Proof. destruct t; reflexivity. Qed.
 Lemma starts_underscore_eq n : starts_underscore n = sp_private n.
 Proof. destruct n as [|c n]; reflexivity. Qed.
 
-Lemma sig_guard2_cons p s : sig_guard2 (p :: s) = true -> priv_opt_nodefault p = false /\ sig_guard2 s = true.
+Lemma sig_guard3_cons p s : sig_guard3 (p :: s) = true -> nullish_default p = false /\ sig_guard3 s = true.
 Proof.
-  unfold sig_guard2. simpl. rewrite negb_orb. intro H. apply andb_true_iff in H. destruct H as [H1 H2].
+  unfold sig_guard3. simpl. rewrite negb_orb. intro H. apply andb_true_iff in H. destruct H as [H1 H2].
   apply negb_true_iff in H1. auto.
 Qed.
 
-Lemma sig_guard2_In p s : sig_guard2 s = true -> In p s -> priv_opt_nodefault p = false.
+Lemma sig_guard3_In p s : sig_guard3 s = true -> In p s -> nullish_default p = false.
 Proof.
-  induction s as [|q s IH]; [intros _ []|]. intros H [HI|HI]; apply sig_guard2_cons in H; destruct H; subst; auto.
+  induction s as [|q s IH]; [intros _ []|]. intros H [HI|HI]; apply sig_guard3_cons in H; destruct H; subst; auto.
 Qed.
 
 (* outside the second finding class the code's table is the spec's: offered parameters, in order *)
 Lemma arg_of_param_spec as_pos p :
-  priv_opt_nodefault p = false ->
-  arg_of_param as_pos p = if sp_offered p then Some (mk_arg as_pos p) else None.
+  nullish_default p = false ->
+  arg_of_param false as_pos p = if sp_offered p then Some (mk_arg as_pos p) else None.
 Proof.
-  unfold arg_of_param, priv_opt_nodefault, sp_offered, mk_arg, sp_required, sp_ty, sp_default.
-  rewrite is_optional_eq, starts_underscore_eq.
+  unfold arg_of_param, nullish_default, sp_offered, mk_arg, sp_required, sp_ty, sp_default, reparse_default.
+  rewrite !is_optional_eq, starts_underscore_eq.
   destruct (p_default p) as [v|]; simpl.
-  - intros _. destruct (sp_private (p_name p)); simpl; auto.
-  - destruct (sp_is_opt (p_ty p)); simpl; destruct (sp_private (p_name p)); simpl; auto; discriminate.
+  - intros HN. destruct (sp_private (p_name p)); simpl; auto.
+    destruct v; simpl; auto; destruct (p_ty p); simpl in *; auto; rewrite HN; auto.
+  - intros _. destruct (sp_is_opt (p_ty p)) eqn:EO; simpl; auto; destruct (sp_private (p_name p)); simpl; auto;
+      destruct (p_ty p); simpl in *; auto; discriminate.
 Qed.
 
 Lemma args_of_sig_spec as_pos s :
-  sig_guard2 s = true -> args_of_sig as_pos s = map (mk_arg as_pos) (filter sp_offered s).
+  sig_guard3 s = true -> args_of_sig false as_pos s = map (mk_arg as_pos) (filter sp_offered s).
 Proof.
-  induction s as [|p s IH]; simpl; auto. intro HG. apply sig_guard2_cons in HG. destruct HG as [HG1 HG2].
+  induction s as [|p s IH]; simpl; auto. intro HG. apply sig_guard3_cons in HG. destruct HG as [HG1 HG2].
   unfold args_of_sig in *. simpl. rewrite arg_of_param_spec, IH by auto.
   destruct (sp_offered p); reflexivity.
 Qed.
@@ -100,8 +102,8 @@ Proof.
 Qed.
 
 Lemma find_arg_spec as_pos s n :
-  sig_guard2 s = true -> NoDup (names s) ->
-  find_arg n (args_of_sig as_pos s) =
+  sig_guard3 s = true -> NoDup (names s) ->
+  find_arg n (args_of_sig false as_pos s) =
   match sp_find n s with
   | Some p => if sp_offered p then Some (mk_arg as_pos p) else None
   | None => None
@@ -142,8 +144,8 @@ Proof.
 Qed.
 
 Lemma filter_pos_spec as_pos s :
-  sig_guard2 s = true ->
-  filter a_pos (args_of_sig as_pos s) =
+  sig_guard3 s = true ->
+  filter a_pos (args_of_sig false as_pos s) =
   map (mk_arg as_pos) (filter (fun p => sp_offered p && (sp_required p && as_pos)) s).
 Proof.
   intro HG. rewrite args_of_sig_spec by auto. clear HG. induction s as [|p s IH]; simpl; auto.
@@ -188,25 +190,25 @@ Proof.
   - destruct HI as [HI|HI]; [subst; rewrite str_eqb_refl in E; discriminate|]. eapply IH; eauto.
 Qed.
 
-Lemma arg_of_param_dest as_pos p a : arg_of_param as_pos p = Some a -> a_dest a = p_name p.
+Lemma arg_of_param_dest as_pos p a : arg_of_param false as_pos p = Some a -> a_dest a = p_name p.
 Proof.
   unfold arg_of_param. destruct (_ && _); [discriminate|]. intro H. inversion H. reflexivity.
 Qed.
 
-Lemma dests_subset as_pos s a : In a (args_of_sig as_pos s) -> In (a_dest a) (names s).
+Lemma dests_subset as_pos s a : In a (args_of_sig false as_pos s) -> In (a_dest a) (names s).
 Proof.
   unfold args_of_sig. intro H. apply in_flat_map in H. destruct H as [p [H1 H2]].
-  destruct (arg_of_param as_pos p) as [a'|] eqn:E; [|destruct H2]. destruct H2 as [H2|[]]. subst a'.
+  destruct (arg_of_param false as_pos p) as [a'|] eqn:E; [|destruct H2]. destruct H2 as [H2|[]]. subst a'.
   rewrite (arg_of_param_dest _ _ _ E). apply in_map. exact H1.
 Qed.
 
-Lemma dests_of_sig as_pos s : NoDup (names s) -> NoDup (map a_dest (args_of_sig as_pos s)).
+Lemma dests_of_sig as_pos s : NoDup (names s) -> NoDup (map a_dest (args_of_sig false as_pos s)).
 Proof.
   induction s as [|p s IH]; simpl; [constructor|].
   intro ND. inversion ND as [|? ? Hn ND']; subst.
-  change (args_of_sig as_pos (p :: s)) with
-    ((match arg_of_param as_pos p with Some a => [a] | None => [] end) ++ args_of_sig as_pos s).
-  destruct (arg_of_param as_pos p) as [a|] eqn:E; simpl; auto.
+  change (args_of_sig false as_pos (p :: s)) with
+    ((match arg_of_param false as_pos p with Some a => [a] | None => [] end) ++ args_of_sig false as_pos s).
+  destruct (arg_of_param false as_pos p) as [a|] eqn:E; simpl; auto.
   constructor; auto. rewrite (arg_of_param_dest _ _ _ E). intro HI. apply Hn.
   apply in_map_iff in HI. destruct HI as [b [Hb1 Hb2]]. rewrite <- Hb1. eapply dests_subset; eauto.
 Qed.
@@ -273,13 +275,13 @@ Section Sim.
 
   (* ---- well-formed components / levels: what build_check and the two guards give ------------- *)
   Definition comp_wf (c : comp) : Prop :=
-    build_check c = Ok tt /\ guard_comp c = true /\ guard2_comp c = true.
+    build_check c = Ok tt /\ guardA_comp c = true /\ guardB_comp c = true.
 
   Definition lv_wf (lv : level) : Prop :=
     match lv with
     | LComp CHelp => False
     | LComp c => comp_wf c
-    | LMeth s => check_meth_sig s = Ok tt /\ has_param s_config s = false /\ sig_guard2 s = true
+    | LMeth s => check_meth_sig s = Ok tt /\ sig_guard3 s = true
     end.
 
   Definition slv_of (lv : level) (cn m : str) : slevel :=
@@ -337,8 +339,8 @@ Section Sim.
 
   Lemma go_guard_In kids m c :
     (fix go (l : list (str * comp)) : bool :=
-       match l with [] => true | (_, c') :: l' => guard_comp c' && go l' end) kids = true ->
-    In (m, c) kids -> guard_comp c = true.
+       match l with [] => true | (_, c') :: l' => guardA_comp c' && go l' end) kids = true ->
+    In (m, c) kids -> guardA_comp c = true.
   Proof.
     induction kids as [|[k c'] kids IH]; simpl; [tauto|].
     intros H [HI|HI]; apply andb_true_iff in H; destruct H; [inversion HI; subst; auto|auto].
@@ -346,32 +348,29 @@ Section Sim.
 
   Lemma go_guard2_In kids m c :
     (fix go (l : list (str * comp)) : bool :=
-       match l with [] => true | (_, c') :: l' => guard2_comp c' && go l' end) kids = true ->
-    In (m, c) kids -> guard2_comp c = true.
+       match l with [] => true | (_, c') :: l' => guardB_comp c' && go l' end) kids = true ->
+    In (m, c) kids -> guardB_comp c = true.
   Proof.
     induction kids as [|[k c'] kids IH]; simpl; [tauto|].
     intros H [HI|HI]; apply andb_true_iff in H; destruct H; [inversion HI; subst; auto|auto].
   Qed.
 
   (* the three shapes, unfolded once and for all *)
-  Lemma comp_wf_fn n s : comp_wf (CFn n s) ->
-    check_fn_sig s = Ok tt /\ has_param s_subcommand s = false /\ sig_guard2 s = true.
-  Proof.
-    intros [HB [HG HG2]]. simpl in *. apply negb_true_iff in HG. auto.
-  Qed.
+  Lemma comp_wf_fn n s : comp_wf (CFn n s) -> check_fn_sig s = Ok tt /\ sig_guard3 s = true.
+  Proof. intros [HB [HG HG2]]. simpl in *. auto. Qed.
 
   Lemma comp_wf_cls n i ms : comp_wf (CCls n i ms) ->
     meth_names_ok i ms = true /\ has_param s_subcommand i = false /\ check_fn_sig i = Ok tt /\
-    sig_guard2 i = true /\
-    (forall m s, In (m, s) ms -> check_meth_sig s = Ok tt /\ has_param s_config s = false /\ sig_guard2 s = true).
+    sig_guard3 i = true /\
+    (forall m s, In (m, s) ms -> check_meth_sig s = Ok tt /\ sig_guard3 s = true).
   Proof.
-    intros [HB [HG HG2]]. simpl in *.
-    destruct (meth_names_ok i ms) eqn:E1; [|discriminate]. destruct (has_param s_subcommand i) eqn:E2; [discriminate|].
+    intros [HB [HG HG2]]. simpl in *. apply negb_true_iff in HG. rewrite HG in HB. simpl in HB.
+    rewrite orb_false_r in HB.
+    destruct (meth_names_ok i ms) eqn:E1; [|discriminate].
     simpl in HB. destruct (check_fn_sig i) as [[]|] eqn:E3; [|discriminate]. simpl in HB.
     apply andb_true_iff in HG2. destruct HG2 as [HG2 HG3].
     repeat split; auto.
     - eapply check_meths_In; eauto.
-    - rewrite forallb_forall in HG. specialize (HG _ H). simpl in HG. apply negb_true_iff in HG. exact HG.
     - rewrite forallb_forall in HG3. apply (HG3 _ H).
   Qed.
 
@@ -398,17 +397,19 @@ Section Sim.
     - intros [H _]. apply check_meth_sig_ok; auto.
   Qed.
 
-  Lemma lv_wf_noconfig lv : lv_wf lv -> ~ In s_config (names (level_sig lv)).
+  Lemma lv_wf_noconfig top lv :
+    lv_wf lv -> level_has_config false as_pos top lv = true -> ~ In s_config (names (level_sig lv)).
   Proof.
     destruct lv as [[n s|n i ms|kids|]|s]; simpl.
-    - intro H. apply comp_wf_fn in H. destruct H as [H _]. apply check_fn_sig_ok in H. tauto.
-    - intro H. apply comp_wf_cls in H. destruct H as [_ [_ [H _]]]. apply check_fn_sig_ok in H. tauto.
-    - intros _ [].
+    - intros H _. apply comp_wf_fn in H. destruct H as [H _]. apply check_fn_sig_ok in H. tauto.
+    - intros H _. apply comp_wf_cls in H. destruct H as [_ [_ [H _]]]. apply check_fn_sig_ok in H. tauto.
+    - intros _ _ [].
     - tauto.
-    - intros [_ [H _]]. apply has_param_false; auto.
+    - intros _ H. apply andb_true_iff in H. destruct H as [H _]. apply negb_true_iff in H.
+      apply has_param_false; auto.
   Qed.
 
-  Lemma lv_wf_guard2 lv : lv_wf lv -> sig_guard2 (level_sig lv) = true.
+  Lemma lv_wf_guard2 lv : lv_wf lv -> sig_guard3 (level_sig lv) = true.
   Proof.
     destruct lv as [[n s|n i ms|kids|]|s]; simpl.
     - intro H. apply comp_wf_fn in H. tauto.
@@ -538,14 +539,14 @@ Section Sim.
   Qed.
 
   (* ---- the level's --config option ------------------------------------------------------------- *)
-  Lemma nonempty_args s : sig_guard2 s = true -> nonempty (args_of_sig as_pos s) = offers s.
+  Lemma nonempty_args s : sig_guard3 s = true -> nonempty (args_of_sig false as_pos s) = offers s.
   Proof.
     intro HG. rewrite args_of_sig_spec by auto. clear HG. unfold offers. induction s as [|p s IH]; simpl; auto.
     destruct (sp_offered p); simpl; auto.
   Qed.
 
   Lemma has_config_eq top lv cn mn :
-    lv_wf lv -> level_has_config as_pos top lv = sl_has_config top (slv_of lv cn mn).
+    lv_wf lv -> level_has_config false as_pos top lv = sl_has_config top (slv_of lv cn mn).
   Proof.
     destruct lv as [[n s|n i ms|kids|]|s]; simpl; try tauto; intro HW.
     - apply comp_wf_fn in HW. rewrite nonempty_args by tauto. reflexivity.
@@ -558,11 +559,11 @@ Section Sim.
 
   (* ---- the simulation invariant: the namespace of a level is the fold of the assignments seen --- *)
   Definition inv (top : bool) (lv : level) (st : lstate) (asg : list (str * raw)) : Prop :=
-    ls_ns st = cfg_entry (level_has_config as_pos top lv) ++ ns_args (level_args as_pos lv) asg /\
-    asg_valid (level_args as_pos lv) asg.
+    ls_ns st = cfg_entry (level_has_config false as_pos top lv) ++ ns_args (level_args false as_pos lv) asg /\
+    asg_valid (level_args false as_pos lv) asg.
 
   Lemma find_arg_level lv k : lv_wf lv ->
-    find_arg k (level_args as_pos lv) =
+    find_arg k (level_args false as_pos lv) =
     match sp_find k (level_sig lv) with
     | Some p => if sp_offered p then Some (mk_arg as_pos p) else None
     | None => None
@@ -575,12 +576,12 @@ Section Sim.
     inv top lv (with_ns st (ns_set k v (ls_ns st))) (asg ++ [(k, r)]).
   Proof.
     intros HW [Hns Hval] EF EO EC.
-    assert (HFA : find_arg k (level_args as_pos lv) = Some (mk_arg as_pos p))
+    assert (HFA : find_arg k (level_args false as_pos lv) = Some (mk_arg as_pos p))
       by (rewrite find_arg_level, EF, EO; auto).
     split.
     - simpl. rewrite Hns. eapply ns_set_entry; eauto.
       + apply dests_of_sig. apply lv_wf_nodup. exact HW.
-      + intros _ X. subst k. apply (lv_wf_noconfig lv HW).
+      + intros Hhc X. subst k. apply (lv_wf_noconfig top lv HW Hhc).
         destruct (sp_find_name _ _ _ EF) as [HN HI]. rewrite <- HN. apply in_map. exact HI.
     - eapply asg_valid_snoc; eauto.
   Qed.
@@ -589,7 +590,7 @@ Section Sim.
   Proof. intro H. destruct (sp_find_name _ _ _ H) as [HN HI]. rewrite <- HN. apply in_map. exact HI. Qed.
 
   Lemma apply_doc_sim lv cn mn top d : lv_wf lv -> forall st asg, inv top lv st asg ->
-    match apply_doc conv (level_args as_pos lv) (sub_names lv) d st with
+    match apply_doc conv (level_args false as_pos lv) (sub_names lv) d st with
     | Ok st' => exists asg', sp_doc conv as_pos (slv_of lv cn mn) d asg (ls_pend st) = Some (asg', ls_pend st') /\
                              inv top lv st' asg' /\ ls_npos st' = ls_npos st
     | Err EParse => sp_doc conv as_pos (slv_of lv cn mn) d asg (ls_pend st) = None
@@ -639,7 +640,7 @@ Section Sim.
   Qed.
 
   Lemma apply_docs_sim lv cn mn top ds : lv_wf lv -> forall st asg, inv top lv st asg ->
-    match apply_docs conv (level_args as_pos lv) (sub_names lv) ds st with
+    match apply_docs conv (level_args false as_pos lv) (sub_names lv) ds st with
     | Ok st' => exists asg', sp_docs conv as_pos (slv_of lv cn mn) ds asg (ls_pend st) = Some (asg', ls_pend st') /\
                              inv top lv st' asg' /\ ls_npos st' = ls_npos st
     | Err EParse => sp_docs conv as_pos (slv_of lv cn mn) ds asg (ls_pend st) = None
@@ -650,14 +651,14 @@ Section Sim.
     intro HW. induction ds as [|d ds IH]; intros st asg HI.
     - simpl. exists asg. auto.
     - cbn [apply_docs sp_docs]. pose proof (apply_doc_sim lv cn mn top d HW st asg HI) as HD.
-      destruct (apply_doc conv (level_args as_pos lv) (sub_names lv) d st) as [st1|e]; cbn [bind].
+      destruct (apply_doc conv (level_args false as_pos lv) (sub_names lv) d st) as [st1|e]; cbn [bind].
       + destruct HD as [asg1 [HD1 [HD2 HD3]]]. rewrite HD1.
         pose proof (IH st1 asg1 HD2) as H2. rewrite HD3 in H2. exact H2.
       + destruct e; auto. rewrite HD. reflexivity.
   Qed.
 
   Lemma init_state_sim lv cn mn top ds : lv_wf lv ->
-    match init_state conv as_pos top lv ds with
+    match init_state conv false as_pos top lv ds with
     | Ok st' => exists asg', sp_docs conv as_pos (slv_of lv cn mn) ds [] [] = Some (asg', ls_pend st') /\
                              inv top lv st' asg' /\ ls_npos st' = 0
     | Err EParse => sp_docs conv as_pos (slv_of lv cn mn) ds [] [] = None
@@ -667,8 +668,8 @@ Section Sim.
   Proof.
     intro HW. unfold init_state.
     apply (apply_docs_sim lv cn mn top ds HW
-             {| ls_ns := (if level_has_config as_pos top lv then [(s_config, VNone)] else [])
-                         ++ map (fun a => (a_dest a, a_def a)) (level_args as_pos lv);
+             {| ls_ns := (if level_has_config false as_pos top lv then [(s_config, VNone)] else [])
+                         ++ map (fun a => (a_dest a, a_def a)) (level_args false as_pos lv);
                 ls_npos := 0; ls_pend := [] |} []).
     split.
     - reflexivity.
@@ -687,11 +688,11 @@ Section Sim.
     assoc k (l1 ++ l2) = match assoc k l1 with Some x => Some x | None => assoc k l2 end.
   Proof. induction l1 as [|[k' a] l1 IH]; simpl; auto. destruct (str_eqb k k'); auto. Qed.
 
-  Lemma assoc_entry hcb k (l : ns) : k <> s_config -> assoc k (cfg_entry hcb ++ l) = assoc k l.
+  Lemma assoc_entry hcb k (l : ns) : (hcb = true -> k <> s_config) -> assoc k (cfg_entry hcb ++ l) = assoc k l.
   Proof. intro H. destruct hcb; simpl; auto. rewrite str_eqb_false; auto. Qed.
 
   Lemma valid_conv s asg p :
-    sig_guard2 s = true -> NoDup (names s) -> In p s -> sp_offered p = true -> asg_valid (args_of_sig as_pos s) asg ->
+    sig_guard3 s = true -> NoDup (names s) -> In p s -> sp_offered p = true -> asg_valid (args_of_sig false as_pos s) asg ->
     forall r, last_asg (p_name p) asg = Some r -> exists v, conv (sp_ty p) r = Some v.
   Proof.
     intros HG ND HI HO HV r HL. apply last_asg_In in HL. destruct (HV _ _ HL) as [a [v [HF HC]]].
@@ -713,8 +714,8 @@ Section Sim.
   Qed.
 
   Lemma assoc_param s asg p :
-    sig_guard2 s = true -> NoDup (names s) -> In p s ->
-    assoc (p_name p) (ns_args (args_of_sig as_pos s) asg) =
+    sig_guard3 s = true -> NoDup (names s) -> In p s ->
+    assoc (p_name p) (ns_args (args_of_sig false as_pos s) asg) =
     if sp_offered p then Some (arg_value asg (mk_arg as_pos p)) else None.
   Proof.
     intros HG ND HI. rewrite assoc_ns_args, find_arg_spec, (sp_find_In s p ND HI) by auto.
@@ -739,15 +740,16 @@ Section Sim.
   Qed.
 
   Lemma check_required_spec s asg hcb :
-    sig_guard2 s = true -> NoDup (names s) -> ~ In s_config (names s) -> asg_valid (args_of_sig as_pos s) asg ->
-    check_required (args_of_sig as_pos s) (cfg_entry hcb ++ ns_args (args_of_sig as_pos s) asg) =
+    sig_guard3 s = true -> NoDup (names s) -> (hcb = true -> ~ In s_config (names s)) ->
+    asg_valid (args_of_sig false as_pos s) asg ->
+    check_required (args_of_sig false as_pos s) (cfg_entry hcb ++ ns_args (args_of_sig false as_pos s) asg) =
     sp_complete conv s asg.
   Proof.
     intros HG ND NC HV. unfold check_required, sp_complete.
     rewrite (args_of_sig_spec as_pos s HG) at 1. rewrite forallb_map_filter.
     apply forallb_ext_in. intros p HI. cbn [a_req a_dest mk_arg].
     destruct (sp_offered p) eqn:HO.
-    - cbn [negb orb]. rewrite assoc_entry by (intro X; apply NC; rewrite <- X; apply in_map; exact HI).
+    - cbn [negb orb]. rewrite assoc_entry by (intros Hh X; apply (NC Hh); rewrite <- X; apply in_map; exact HI).
       rewrite (assoc_param s asg p HG ND HI), HO.
       pose proof (value_match asg p HO (valid_conv s asg p HG ND HI HO HV)) as HM.
       destruct (sp_value conv asg p) as [v|].
@@ -757,10 +759,10 @@ Section Sim.
   Qed.
 
   Lemma bind_params_spec s0 asg :
-    NoDup (names s0) -> sig_guard2 s0 = true -> asg_valid (args_of_sig as_pos s0) asg ->
+    NoDup (names s0) -> sig_guard3 s0 = true -> asg_valid (args_of_sig false as_pos s0) asg ->
     sp_complete conv s0 asg = true ->
     forall s, (forall p, In p s -> In p s0) ->
-    exists b, sp_bind conv s asg = Some b /\ bind_params s (ns_args (args_of_sig as_pos s0) asg) = Ok b.
+    exists b, sp_bind conv s asg = Some b /\ bind_params s (ns_args (args_of_sig false as_pos s0) asg) = Ok b.
   Proof.
     intros ND HG HV HC. induction s as [|p s IH]; intro HS.
     - exists []. auto.
@@ -785,17 +787,17 @@ Section Sim.
   Proof. unfold ns_args. rewrite map_map. reflexivity. Qed.
 
   Lemma call_sim s asg :
-    NoDup (names s) -> sig_guard2 s = true -> asg_valid (args_of_sig as_pos s) asg ->
+    NoDup (names s) -> sig_guard3 s = true -> asg_valid (args_of_sig false as_pos s) asg ->
     sp_complete conv s asg = true ->
-    exists b, sp_finish conv s asg = Some b /\ py_call s (ns_args (args_of_sig as_pos s) asg) = Ok b.
+    exists b, sp_finish conv s asg = Some b /\ py_call s (ns_args (args_of_sig false as_pos s) asg) = Ok b.
   Proof.
     intros ND HG HV HC. destruct (bind_params_spec s asg ND HG HV HC s) as [b [H1 H2]]; auto.
     exists b. unfold sp_finish, py_call. rewrite HC. split; auto.
     assert (HE : existsb (fun kv : str * value => negb (has_param (fst kv) s))
-                         (ns_args (args_of_sig as_pos s) asg) = false).
+                         (ns_args (args_of_sig false as_pos s) asg) = false).
     { destruct (existsb _ _) eqn:E; auto. apply existsb_exists in E. destruct E as [[k v] [HI HN]].
       apply negb_true_iff in HN. apply has_param_false in HN. exfalso. apply HN. simpl.
-      assert (In k (map fst (ns_args (args_of_sig as_pos s) asg))) by (change k with (fst (k, v)); apply in_map; auto).
+      assert (In k (map fst (ns_args (args_of_sig false as_pos s) asg))) by (change k with (fst (k, v)); apply in_map; auto).
       rewrite keys_ns_args in H. apply in_map_iff in H. destruct H as [a [Ha1 Ha2]]. subst k.
       eapply dests_subset; eauto. }
     rewrite HE. exact H2.
@@ -803,20 +805,20 @@ Section Sim.
 
   (* ---- what parse returns: one frame per level, each the fold of that level's assignments ------- *)
   Definition mkf (top : bool) (lv : level) (asg : list (str * raw)) (sub : option str) : frame :=
-    {| fr_ns := cfg_entry (level_has_config as_pos top lv) ++ ns_args (level_args as_pos lv) asg; fr_sub := sub |}.
+    {| fr_ns := cfg_entry (level_has_config false as_pos top lv) ++ ns_args (level_args false as_pos lv) asg; fr_sub := sub |}.
 
   Inductive chain : bool -> level -> str -> str -> list frame -> list call -> retv -> Prop :=
   | ch_fn top n s cn mn asg b :
-      py_call s (ns_args (args_of_sig as_pos s) asg) = Ok b ->
+      py_call s (ns_args (args_of_sig false as_pos s) asg) = Ok b ->
       chain top (LComp (CFn n s)) cn mn [mkf top (LComp (CFn n s)) asg None] [([n], b)] (RetCall 0)
   | ch_cls0 top n i cn mn asg b :
-      py_call i (ns_args (args_of_sig as_pos i) asg) = Ok b ->
+      py_call i (ns_args (args_of_sig false as_pos i) asg) = Ok b ->
       chain top (LComp (CCls n i [])) cn mn [mkf top (LComp (CCls n i [])) asg None] [([n; s__init__], b)] RetInstance
   | ch_meth top s cn mn asg b :
-      py_call s (ns_args (args_of_sig as_pos s) asg) = Ok b ->
+      py_call s (ns_args (args_of_sig false as_pos s) asg) = Ok b ->
       chain top (LMeth s) cn mn [mkf top (LMeth s) asg None] [([cn; mn], b)] (RetCall 0)
   | ch_cls top n i ms cn mn asg b m s fs log ret :
-      py_call i (ns_args (args_of_sig as_pos i) asg) = Ok b ->
+      py_call i (ns_args (args_of_sig false as_pos i) asg) = Ok b ->
       assoc m ms = Some s ->
       chain false (LMeth s) n m fs log ret ->
       chain top (LComp (CCls n i ms)) cn mn (mkf top (LComp (CCls n i ms)) asg (Some m) :: fs)
@@ -861,7 +863,7 @@ Section Sim.
 
   Lemma check_required_level top lv st asg :
     lv_wf lv -> inv top lv st asg ->
-    check_required (level_args as_pos lv) (ls_ns st) = sp_complete conv (level_sig lv) asg.
+    check_required (level_args false as_pos lv) (ls_ns st) = sp_complete conv (level_sig lv) asg.
   Proof.
     intros HW [H1 H2]. rewrite H1. apply check_required_spec; auto.
     - apply lv_wf_guard2; auto.
@@ -870,9 +872,9 @@ Section Sim.
   Qed.
 
   Lemma call_level lv asg :
-    lv_wf lv -> asg_valid (level_args as_pos lv) asg -> sp_complete conv (level_sig lv) asg = true ->
+    lv_wf lv -> asg_valid (level_args false as_pos lv) asg -> sp_complete conv (level_sig lv) asg = true ->
     exists b, sp_finish conv (level_sig lv) asg = Some b /\
-              py_call (level_sig lv) (ns_args (args_of_sig as_pos (level_sig lv)) asg) = Ok b.
+              py_call (level_sig lv) (ns_args (args_of_sig false as_pos (level_sig lv)) asg) = Ok b.
   Proof.
     intros HW HV HC. apply call_sim; auto.
     - apply lv_wf_nodup; auto.
@@ -884,7 +886,7 @@ Section Sim.
 
   Lemma parse_sim toks : forall top lv cn mn st asg acc,
     lv_wf lv -> inv top lv st asg ->
-    match parse conv as_pos top lv st toks acc with
+    match parse conv false as_pos top lv st toks acc with
     | Ok fs => exists fs' log ret,
                  fs = rev acc ++ fs' /\
                  sp_walk conv as_pos top (slv_of lv cn mn) asg (ls_npos st) (ls_pend st) toks = Some (log, ret) /\
@@ -959,7 +961,7 @@ Section Sim.
           change (pending_for m st) with (secs_for m (ls_pend st)).
           pose proof (init_state_sim lv' cn' m false (secs_for m (ls_pend st)) HW') as HIS.
           destruct (sp_complete conv (level_sig lv) asg) eqn:EC.
-          -- destruct (init_state conv as_pos false lv' (secs_for m (ls_pend st))) as [st'|e].
+          -- destruct (init_state conv false as_pos false lv' (secs_for m (ls_pend st))) as [st'|e].
              2:{ destruct e; auto. rewrite HIS. reflexivity. }
              destruct HIS as [asg' [HS1 [HS2 HS3]]]. rewrite HS1.
              pose proof (IH false lv' cn' m st' asg' ({| fr_ns := ls_ns st; fr_sub := Some m |} :: acc) HW' HS2) as HP.
@@ -975,7 +977,7 @@ Section Sim.
                 destruct (assoc m (m0 :: ms)) as [s|] eqn:EM; [|discriminate]. simpl in EA. inversion EA; subst lv'. clear EA.
                 cbn [slv_of sl_sub] in HSub. rewrite EM in HSub. cbn [slv_of] in HSub. inversion HSub; subst cn'. clear HSub.
                 cbn [slv_of level_sig] in *. rewrite Hb1.
-                destruct (parse conv as_pos false (LMeth s) st' toks _) as [fs|e].
+                destruct (parse conv false as_pos false (LMeth s) st' toks _) as [fs|e].
                 ** destruct HP as [fs' [log [ret [HP1 [HP2 HP3]]]]]. rewrite HP2.
                    exists (mkf top (LComp (CCls n i (m0 :: ms))) asg (Some m) :: fs'), (([n; s__init__], b) :: log), (shift ret).
                    split; [rewrite HP1; simpl; rewrite <- app_assoc; rewrite HF; reflexivity|].
@@ -985,7 +987,7 @@ Section Sim.
                 simpl in ES. inversion ES; subst subs. clear ES.
                 destruct (assoc_kid_levels _ _ _ EA) as [Hm [c [Hc HA']]]. subst lv'.
                 cbn [slv_of] in *.
-                destruct (parse conv as_pos false (LComp c) st' toks _) as [fs|e].
+                destruct (parse conv false as_pos false (LComp c) st' toks _) as [fs|e].
                 ** destruct HP as [fs' [log [ret [HP1 [HP2 HP3]]]]]. rewrite HP2.
                    exists ({| fr_ns := [(s_config, VNone)]; fr_sub := Some m |} :: fs'), log, ret.
                    split.
@@ -999,9 +1001,9 @@ Section Sim.
              ++ simpl in EC. discriminate.
       + (* --config=d *)
         cbn [parse sp_walk]. rewrite <- (has_config_eq top lv cn mn HW).
-        destruct (level_has_config as_pos top lv) eqn:EH.
+        destruct (level_has_config false as_pos top lv) eqn:EH.
         * pose proof (apply_doc_sim lv cn mn top d HW st asg HI) as HD.
-          destruct (apply_doc conv (level_args as_pos lv) (sub_names lv) d st) as [st'|e].
+          destruct (apply_doc conv (level_args false as_pos lv) (sub_names lv) d st) as [st'|e].
           -- destruct HD as [asg' [HD1 [HD2 HD3]]]. rewrite HD1.
              pose proof (IH top lv cn mn st' asg' acc HW HD2) as HP. rewrite HD3 in HP. exact HP.
           -- destruct e; auto. rewrite HD. reflexivity.
@@ -1027,7 +1029,7 @@ Section Sim.
   Lemma kwargs_cvmap (l : ns) : kwargs_of (cvmap l) = Ok l.
   Proof. induction l as [|[k v] l IH]; simpl; auto. rewrite IH. reflexivity. Qed.
 
-  Lemma keys_sub s asg k : In k (map fst (ns_args (args_of_sig as_pos s) asg)) -> In k (names s).
+  Lemma keys_sub s asg k : In k (map fst (ns_args (args_of_sig false as_pos s) asg)) -> In k (names s).
   Proof.
     rewrite keys_ns_args. intro H. apply in_map_iff in H. destruct H as [a [H1 H2]]. subst k.
     eapply dests_subset; eauto.
@@ -1035,41 +1037,41 @@ Section Sim.
 
   Lemma remove_config_entry hcb s asg :
     ~ In s_config (names s) ->
-    remove_key s_config (cvmap (cfg_entry hcb ++ ns_args (args_of_sig as_pos s) asg)) =
-    cvmap (ns_args (args_of_sig as_pos s) asg).
+    remove_key s_config (cvmap (cfg_entry hcb ++ ns_args (args_of_sig false as_pos s) asg)) =
+    cvmap (ns_args (args_of_sig false as_pos s) asg).
   Proof.
     intro H. rewrite map_app, remove_key_app.
-    rewrite (remove_key_notin s_config (cvmap (ns_args (args_of_sig as_pos s) asg)))
+    rewrite (remove_key_notin s_config (cvmap (ns_args (args_of_sig false as_pos s) asg)))
       by (rewrite keys_cvmap; intro X; apply H; eapply keys_sub; eauto).
     destruct hcb; reflexivity.
   Qed.
 
   Lemma assoc_cv_none s asg k :
-    ~ In k (names s) -> assoc k (cvmap (ns_args (args_of_sig as_pos s) asg)) = None.
+    ~ In k (names s) -> assoc k (cvmap (ns_args (args_of_sig false as_pos s) asg)) = None.
   Proof. intro H. apply assoc_None. rewrite keys_cvmap. intro X. apply H. eapply keys_sub; eauto. Qed.
 
   Lemma remove_cv_notin s asg k :
     ~ In k (names s) ->
-    remove_key k (cvmap (ns_args (args_of_sig as_pos s) asg)) = cvmap (ns_args (args_of_sig as_pos s) asg).
+    remove_key k (cvmap (ns_args (args_of_sig false as_pos s) asg)) = cvmap (ns_args (args_of_sig false as_pos s) asg).
   Proof. intro H. apply remove_key_notin. rewrite keys_cvmap. intro X. apply H. eapply keys_sub; eauto. Qed.
 
   Lemma neq_sub_cfg : s_subcommand <> s_config.
   Proof. discriminate. Qed.
 
   Lemma run_fn n s top asg b :
-    comp_wf (CFn n s) -> py_call s (ns_args (args_of_sig as_pos s) asg) = Ok b ->
-    run_component (CFn n s) (nest [mkf top (LComp (CFn n s)) asg None]) = Ok ([([n], b)], RetCall 0).
+    comp_wf (CFn n s) -> py_call s (ns_args (args_of_sig false as_pos s) asg) = Ok b ->
+    run_component false (CFn n s) (nest [mkf top (LComp (CFn n s)) asg None]) = Ok ([([n], b)], RetCall 0).
   Proof.
-    intros HW HC. apply comp_wf_fn in HW. destruct HW as [H1 [H2 _]].
-    apply check_fn_sig_ok in H1. destruct H1 as [_ [H1 _]]. apply has_param_false in H2.
+    intros HW HC. apply comp_wf_fn in HW. destruct HW as [H1 _].
+    apply check_fn_sig_ok in H1. destruct H1 as [_ [H1 _]].
     unfold nest, mkf. unfold level_args; cbn [fr_ns fr_sub level_sig]. rewrite app_nil_r.
-    unfold run_component. rewrite remove_config_entry by auto. rewrite remove_cv_notin by auto.
+    unfold run_component. rewrite remove_config_entry by auto.
     rewrite kwargs_cvmap. cbn [bind]. rewrite HC. reflexivity.
   Qed.
 
   Lemma run_cls0 n i ms top asg b :
-    comp_wf (CCls n i ms) -> py_call i (ns_args (args_of_sig as_pos i) asg) = Ok b ->
-    run_component (CCls n i ms) (nest [mkf top (LComp (CCls n i ms)) asg None]) = Ok ([([n; s__init__], b)], RetInstance).
+    comp_wf (CCls n i ms) -> py_call i (ns_args (args_of_sig false as_pos i) asg) = Ok b ->
+    run_component false (CCls n i ms) (nest [mkf top (LComp (CCls n i ms)) asg None]) = Ok ([([n; s__init__], b)], RetInstance).
   Proof.
     intros HW HC. apply comp_wf_cls in HW. destruct HW as [_ [H2 [H1 _]]].
     apply check_fn_sig_ok in H1. destruct H1 as [_ [H1 _]]. apply has_param_false in H2.
@@ -1092,15 +1094,14 @@ Section Sim.
   Qed.
 
   Lemma run_cls n i ms top asg b m s fs log ret :
-    comp_wf (CCls n i ms) -> py_call i (ns_args (args_of_sig as_pos i) asg) = Ok b ->
+    comp_wf (CCls n i ms) -> py_call i (ns_args (args_of_sig false as_pos i) asg) = Ok b ->
     assoc m ms = Some s -> chain false (LMeth s) n m fs log ret ->
-    run_component (CCls n i ms) (nest (mkf top (LComp (CCls n i ms)) asg (Some m) :: fs)) =
+    run_component false (CCls n i ms) (nest (mkf top (LComp (CCls n i ms)) asg (Some m) :: fs)) =
     Ok (([n; s__init__], b) :: log, shift ret).
   Proof.
     intros HW HC HA HCh. apply comp_wf_cls in HW. destruct HW as [HM [H2 [H1 [_ HMs]]]].
     apply check_fn_sig_ok in H1. destruct H1 as [_ [H1 _]]. apply has_param_false in H2.
     destruct (meth_ok_facts _ _ _ _ HM HA) as [F1 [F2 F3]].
-    destruct (HMs _ _ (assoc_In _ _ _ HA)) as [_ [HMc _]]. apply has_param_false in HMc.
     inversion HCh; subst. clear HCh.
     unfold nest, mkf. unfold level_args; cbn [fr_ns fr_sub level_sig]. rewrite app_nil_r.
     unfold run_component.
@@ -1110,11 +1111,21 @@ Section Sim.
     rewrite assoc_app, assoc_cv_none by auto. cbn [assoc]. rewrite str_eqb_refl.
     rewrite remove_key_app, remove_cv_notin by auto. cbn [remove_key]. rewrite str_eqb_refl.
     rewrite (str_eqb_false s_subcommand m) by auto.
-    rewrite HA.
+    destruct ms as [|ms0 ms']; [discriminate|]. rewrite HA.
     rewrite assoc_app, assoc_cv_none by auto. cbn [assoc]. rewrite str_eqb_refl. cbn [bind].
     rewrite remove_key_app, remove_cv_notin by auto. cbn [remove_key]. rewrite str_eqb_refl.
-    rewrite app_nil_r, kwargs_cvmap. cbn [bind]. rewrite HC. cbn [bind].
-    rewrite remove_config_entry by auto. rewrite kwargs_cvmap. cbn [bind].
+    rewrite app_nil_r, kwargs_cvmap. cbn [bind]. rewrite HC. cbn [bind orb].
+    assert (HX : (if negb (has_param s_config s)
+                  then remove_key s_config
+                         (cvmap (cfg_entry (level_has_config false as_pos false (LMeth s)) ++
+                                 ns_args (args_of_sig false as_pos s) asg0))
+                  else cvmap (cfg_entry (level_has_config false as_pos false (LMeth s)) ++
+                              ns_args (args_of_sig false as_pos s) asg0)) =
+                 cvmap (ns_args (args_of_sig false as_pos s) asg0)).
+    { destruct (has_param s_config s) eqn:EH; cbn [negb].
+      - cbn [level_has_config]. rewrite EH. reflexivity.
+      - apply remove_config_entry. apply has_param_false. exact EH. }
+    rewrite HX. rewrite kwargs_cvmap. cbn [bind].
     match goal with H : py_call s _ = Ok _ |- _ => rewrite H end. reflexivity.
   Qed.
 
@@ -1152,19 +1163,16 @@ Section Sim.
       cfg_get path init = Some (CN (nest fs)) -> length fs < fuel ->
       exists path' c' sub,
         dispatch_loop fuel kids0 init path = Ok path' /\ comps_get path' kids0 = Some c' /\
-        cfg_get path' init = Some (CN sub) /\ run_component c' sub = Ok (log, ret).
+        cfg_get path' init = Some (CN sub) /\ run_component false c' sub = Ok (log, ret).
   Proof.
     induction 1; intros c0 Hlv HW path fuel HP HCg HCf HFu; inversion Hlv; subst c0; clear Hlv;
       (destruct fuel as [|fuel]; [inversion HFu|]).
-    - (* a function *)
+    - (* a function: whatever its own `subcommand` parameter holds, nothing lies below a function *)
       exists path, (CFn n s), (nest [mkf top (LComp (CFn n s)) asg None]).
       split; [|split; [auto|split; [auto|apply run_fn; auto]]].
       cbn [dispatch_loop]. rewrite HCf.
-      assert (HN : assoc s_subcommand (nest [mkf top (LComp (CFn n s)) asg None]) = None).
-      { apply comp_wf_fn in HW. destruct HW as [_ [H2 _]]. apply has_param_false in H2.
-        unfold nest, mkf. unfold level_args; cbn [fr_ns fr_sub level_sig]. rewrite app_nil_r, map_app, assoc_app.
-        rewrite (assoc_cv_none s asg s_subcommand H2). destruct (level_has_config as_pos top (LComp (CFn n s))); reflexivity. }
-      rewrite HN. reflexivity.
+      destruct (assoc s_subcommand (nest [mkf top (LComp (CFn n s)) asg None])) as [[[z|m|b0| |l]|x]|]; try reflexivity.
+      rewrite (comps_get_snoc_leaf path HP kids0 (CFn n s) m); auto.
     - (* a class without methods *)
       exists path, (CCls n i []), (nest [mkf top (LComp (CCls n i [])) asg None]).
       split; [|split; [auto|split; [auto|apply run_cls0; auto]]].
@@ -1172,7 +1180,7 @@ Section Sim.
       assert (HN : assoc s_subcommand (nest [mkf top (LComp (CCls n i [])) asg None]) = None).
       { apply comp_wf_cls in HW. destruct HW as [_ [H2 _]]. apply has_param_false in H2.
         unfold nest, mkf. unfold level_args; cbn [fr_ns fr_sub level_sig]. rewrite app_nil_r, map_app, assoc_app.
-        rewrite (assoc_cv_none i asg s_subcommand H2). destruct (level_has_config as_pos top (LComp (CCls n i []))); reflexivity. }
+        rewrite (assoc_cv_none i asg s_subcommand H2). destruct (level_has_config false as_pos top (LComp (CCls n i []))); reflexivity. }
       rewrite HN. reflexivity.
     - (* a class and one of its methods *)
       exists path, (CCls n i ms), (nest (mkf top (LComp (CCls n i ms)) asg (Some m) :: fs)).
@@ -1182,7 +1190,7 @@ Section Sim.
       { apply comp_wf_cls in HW. destruct HW as [_ [H2 _]]. apply has_param_false in H2.
         unfold mkf, level_args; cbn [nest fr_ns fr_sub level_sig]. rewrite map_app, !assoc_app.
         rewrite (assoc_cv_none i asg s_subcommand H2). cbn [assoc]. rewrite str_eqb_refl.
-        destruct (level_has_config as_pos top (LComp (CCls n i ms))); reflexivity. }
+        destruct (level_has_config false as_pos top (LComp (CCls n i ms))); reflexivity. }
       rewrite HN. rewrite (comps_get_snoc_leaf path HP kids0 (CCls n i ms) m); auto.
     - (* a group: one step down *)
       apply comp_wf_grp in HW. destruct HW as [EK [ES HWk]].
@@ -1254,7 +1262,7 @@ Section Sim.
     induction c as [n s|n i ms|kids HF|] using comp_ind2.
     - apply check_fn_sig_spec.
     - cbn [build_check sp_refuses].
-      destruct (negb (meth_names_ok i ms) || has_param s_subcommand i); [exact I|].
+      destruct (negb (meth_names_ok i ms) || has_param s_subcommand i && nonempty ms); [exact I|].
       pose proof (check_fn_sig_spec i) as H. destruct (check_fn_sig i) as [[]|e]; simpl in *.
       + rewrite H. simpl. apply check_meths_spec.
       + destruct e; auto. rewrite H. reflexivity.
@@ -1269,10 +1277,10 @@ Section Sim.
     - reflexivity.
   Qed.
 
-  Lemma guard_grp_kids kids : guard_comp (CGrp kids) = forallb (fun kc => guard_comp (snd kc)) kids.
+  Lemma guard_grp_kids kids : guardA_comp (CGrp kids) = forallb (fun kc => guardA_comp (snd kc)) kids.
   Proof. simpl. induction kids as [|[k c] kids IH]; simpl; auto. rewrite IH. reflexivity. Qed.
 
-  Lemma guard2_grp_kids kids : guard2_comp (CGrp kids) = forallb (fun kc => guard2_comp (snd kc)) kids.
+  Lemma guard2_grp_kids kids : guardB_comp (CGrp kids) = forallb (fun kc => guardB_comp (snd kc)) kids.
   Proof. simpl. induction kids as [|[k c] kids IH]; simpl; auto. rewrite IH. reflexivity. Qed.
 
   Lemma forallb_map_c12 {A B} (f : B -> bool) (g : A -> B) l : forallb f (map g l) = forallb (fun x => f (g x)) l.
@@ -1281,8 +1289,8 @@ Section Sim.
   Lemma normalize_spec cs :
     match normalize cs with
     | Ok c => sp_top cs = Some c /\ c <> CHelp /\
-              (no_reserved_param_names cs = true -> guard_comp c = true) /\
-              (no_private_optional_without_default cs = true -> guard2_comp c = true)
+              (no_class_subcommand_param cs = true -> guardA_comp c = true) /\
+              (no_nullish_str_default cs = true -> guardB_comp c = true)
     | Err EBuild => sp_top cs = None
     | Err EUnmodelled => True
     | Err _ => False
@@ -1308,8 +1316,8 @@ Section Sim.
 
   (* ---- the theorem: under the two guards the code-shaped model does what the reference semantics says *)
   Theorem model_refines_spec cs toks :
-    no_reserved_param_names cs = true -> no_private_optional_without_default cs = true ->
-    match auto_cli conv as_pos cs toks with
+    no_class_subcommand_param cs = true -> no_nullish_str_default cs = true ->
+    match auto_cli false conv as_pos cs toks with
     | Ok (log, ret) => spec conv as_pos cs toks = Done log ret
     | Err EParse => spec conv as_pos cs toks = Rejected
     | Err EBuild => spec conv as_pos cs toks = Refused
@@ -1329,13 +1337,13 @@ Section Sim.
     assert (HS : slevel_of c = Some (slv_of (LComp c) [] [])) by (destruct c; auto; congruence).
     rewrite HS.
     unfold init_state. cbn [apply_docs bind].
-    match goal with |- context [parse conv as_pos true (LComp c) ?st0 toks []] =>
+    match goal with |- context [parse conv false as_pos true (LComp c) ?st0 toks []] =>
       pose proof (parse_sim toks true (LComp c) [] [] st0 [] [] HW) as HP end.
     cbn [ls_npos ls_pend] in HP.
     match type of HP with ?A -> _ => assert (HI : A) by (split; [reflexivity|intros k r []]) end.
     specialize (HP HI). clear HI.
-    match goal with |- context [parse conv as_pos true (LComp c) ?st0 toks []] =>
-      destruct (parse conv as_pos true (LComp c) st0 toks []) as [fs|e] end; cbn [bind].
+    match goal with |- context [parse conv false as_pos true (LComp c) ?st0 toks []] =>
+      destruct (parse conv false as_pos true (LComp c) st0 toks []) as [fs|e] end; cbn [bind].
     2:{ destruct e; try contradiction; auto. rewrite HP. reflexivity. }
     destruct HP as [fs' [log [ret [HP1 [HP2 HP3]]]]]. simpl in HP1. subst fs'. rewrite HP2.
     destruct c as [n s|n i ms|kids|]; [| | |congruence].
@@ -1369,19 +1377,19 @@ Section Sim.
   Qed.
 
   Corollary binds_exactly cs toks log ret :
-    no_reserved_param_names cs = true -> no_private_optional_without_default cs = true ->
-    auto_cli conv as_pos cs toks = Ok (log, ret) -> spec conv as_pos cs toks = Done log ret.
+    no_class_subcommand_param cs = true -> no_nullish_str_default cs = true ->
+    auto_cli false conv as_pos cs toks = Ok (log, ret) -> spec conv as_pos cs toks = Done log ret.
   Proof. intros G1 G2 H. pose proof (model_refines_spec cs toks G1 G2) as HR. rewrite H in HR. exact HR. Qed.
 
   Corollary never_crashes cs toks :
-    no_reserved_param_names cs = true -> no_private_optional_without_default cs = true ->
-    auto_cli conv as_pos cs toks <> Err ECrash.
+    no_class_subcommand_param cs = true -> no_nullish_str_default cs = true ->
+    auto_cli false conv as_pos cs toks <> Err ECrash.
   Proof. intros G1 G2 H. pose proof (model_refines_spec cs toks G1 G2) as HR. rewrite H in HR. exact HR. Qed.
 
   Corollary rejects_exactly cs toks :
-    no_reserved_param_names cs = true -> no_private_optional_without_default cs = true ->
-    (auto_cli conv as_pos cs toks = Err EParse -> spec conv as_pos cs toks = Rejected) /\
-    (auto_cli conv as_pos cs toks = Err EBuild -> spec conv as_pos cs toks = Refused).
+    no_class_subcommand_param cs = true -> no_nullish_str_default cs = true ->
+    (auto_cli false conv as_pos cs toks = Err EParse -> spec conv as_pos cs toks = Rejected) /\
+    (auto_cli false conv as_pos cs toks = Err EBuild -> spec conv as_pos cs toks = Refused).
   Proof.
     intros G1 G2. pose proof (model_refines_spec cs toks G1 G2) as HR.
     split; intro H; rewrite H in HR; exact HR.
@@ -1524,9 +1532,9 @@ Section Sim.
 
   (* for a class given to auto_cli: constructor and method each receive exactly their own parameters *)
   Theorem class_split n i ms toks log ret :
-    no_reserved_param_names (One (CCls n i ms)) = true ->
-    no_private_optional_without_default (One (CCls n i ms)) = true ->
-    auto_cli conv as_pos (One (CCls n i ms)) toks = Ok (log, ret) ->
+    no_class_subcommand_param (One (CCls n i ms)) = true ->
+    no_nullish_str_default (One (CCls n i ms)) = true ->
+    auto_cli false conv as_pos (One (CCls n i ms)) toks = Ok (log, ret) ->
     exists b1, map fst b1 = names i /\
       ((ms = [] /\ log = [([n; s__init__], b1)] /\ ret = RetInstance) \/
        (exists m s b2, assoc m ms = Some s /\ map fst b2 = names s /\
@@ -1546,24 +1554,27 @@ Section Sim.
 
   (* ---- the clauses of the property about required / Optional parameters, on the code-shaped table *)
   Lemma required_iff_no_default p a :
-    arg_of_param as_pos p = Some a ->
+    arg_of_param false as_pos p = Some a ->
     (a_req a = true <-> (p_default p = None /\ is_optional (p_ty p) = false)) /\
     (a_pos a = true <-> (a_req a = true /\ as_pos = true)).
   Proof.
     unfold arg_of_param. destruct (p_default p) as [v|]; simpl.
-    - destruct (starts_underscore (p_name p)); [discriminate|]. intro H. inversion H; subst; simpl.
+    - destruct (starts_underscore (p_name p)); simpl; [discriminate|]. intro H. inversion H; subst; simpl.
       intuition congruence.
-    - destruct (is_optional (p_ty p)); simpl.
-      + destruct (starts_underscore (p_name p)); [discriminate|]. intro H. inversion H; subst; simpl.
-        intuition congruence.
+    - rewrite andb_false_r. destruct (is_optional (p_ty p)); simpl.
+      + intro H. inversion H; subst; simpl. intuition congruence.
       + intro H. inversion H; subst; simpl. intuition congruence.
   Qed.
 
+  (* since /repo 2f69862 also for a private name *)
   Lemma optional_defaults_none p :
-    p_default p = None -> is_optional (p_ty p) = true -> starts_underscore (p_name p) = false ->
-    arg_of_param as_pos p =
+    p_default p = None -> is_optional (p_ty p) = true ->
+    arg_of_param false as_pos p =
     Some {| a_dest := p_name p; a_pos := false; a_ty := p_ty p; a_req := false; a_def := VNone |}.
-  Proof. intros H1 H2 H3. unfold arg_of_param. rewrite H1, H2. simpl. rewrite H3. reflexivity. Qed.
+  Proof.
+    intros H1 H2. unfold arg_of_param. rewrite H1, H2. simpl. rewrite andb_false_r. simpl.
+    destruct (p_ty p); reflexivity.
+  Qed.
 End Sim.
 
 (* ---- witnesses: the guards are needed (the unchanged code violates the property there), and the
@@ -1582,7 +1593,7 @@ Definition w_p (n : str) (t : ty) (d : option value) : param :=
 Lemma reserved_subcommand_refuted :
   exists cs toks,
     no_reserved_param_names cs = false /\
-    auto_cli conv_simple true cs toks = Ok ([([w_run], [(s_subcommand, VInt 1)])], RetCall 0) /\
+    auto_cli true conv_simple true cs toks = Ok ([([w_run], [(s_subcommand, VInt 1)])], RetCall 0) /\
     spec conv_simple true cs toks = Done [([w_run], [(s_subcommand, VInt 5)])] (RetCall 0).
 Proof.
   exists (One (CFn w_run [w_p s_subcommand TInt (Some (VInt 1))])), [KOpt s_subcommand (RInt 5)].
@@ -1593,7 +1604,7 @@ Qed.
 Lemma reserved_subcommand_crash_refuted :
   exists cs toks,
     no_reserved_param_names cs = false /\
-    auto_cli conv_simple true cs toks = Err ECrash /\
+    auto_cli true conv_simple true cs toks = Err ECrash /\
     spec conv_simple true cs toks = Done [([w_run], [(s_subcommand, VInt 5)])] (RetCall 0).
 Proof.
   exists (One (CFn w_run [w_p s_subcommand TInt None])), [KPos (RInt 5)].
@@ -1605,7 +1616,7 @@ Qed.
 Lemma reserved_config_refuted :
   exists cs toks,
     no_reserved_param_names cs = false /\
-    auto_cli conv_simple true cs toks =
+    auto_cli true conv_simple true cs toks =
       Ok ([([w_tool; s__init__], [(w_alpha, VInt 1)]); ([w_tool; w_train], [(s_config, VInt 3)])], RetCall 1) /\
     spec conv_simple true cs toks =
       Done [([w_tool; s__init__], [(w_alpha, VInt 1)]); ([w_tool; w_train], [(s_config, VInt 7)])] (RetCall 1).
@@ -1619,7 +1630,7 @@ Qed.
 Lemma private_optional_refuted :
   exists cs toks,
     no_reserved_param_names cs = true /\ no_private_optional_without_default cs = false /\
-    auto_cli conv_simple true cs toks = Err ECrash /\
+    auto_cli true conv_simple true cs toks = Err ECrash /\
     spec conv_simple true cs toks = Done [([w_run], [(w_hid, VNone); (w_sigma, VBool true)])] (RetCall 0).
 Proof.
   exists (One (CFn w_run [w_p w_hid (TOpt TInt) None; w_p w_sigma TBool None])), [KPos (RBool true)].
@@ -1637,8 +1648,45 @@ Definition w_ex_toks : list tok :=
    KPos (RStr w_tool); KPos (RInt 9); KPos (RStr w_train); KOpt w_alpha (RInt 4); KPos (RBool true); KOpt w_alpha (RInt 5)].
 
 Lemma guards_satisfiable :
-  no_reserved_param_names w_ex_comps = true /\ no_private_optional_without_default w_ex_comps = true /\
-  auto_cli conv_simple true w_ex_comps w_ex_toks =
+  no_class_subcommand_param w_ex_comps = true /\ no_nullish_str_default w_ex_comps = true /\
+  auto_cli false conv_simple true w_ex_comps w_ex_toks =
     Ok ([([w_tool; s__init__], [(w_alpha, VInt 9); (w_beta, VStr w_sigma)]);
          ([w_tool; w_train], [(w_alpha, VInt 5); (w_sigma, VBool true)])], RetCall 1).
 Proof. vm_compute. auto. Qed.
+
+(* the inputs of the three round-1 witnesses, on the model of the repaired code: the property holds *)
+Lemma round1_inputs_repaired :
+  auto_cli false conv_simple true (One (CFn w_run [w_p s_subcommand TInt (Some (VInt 1))])) [KOpt s_subcommand (RInt 5)]
+    = Ok ([([w_run], [(s_subcommand, VInt 5)])], RetCall 0) /\
+  auto_cli false conv_simple true
+    (One (CCls w_tool [w_p w_alpha TInt (Some (VInt 1))] [(w_train, [w_p s_config TInt (Some (VInt 3))])]))
+    [KPos (RStr w_train); KOpt s_config (RInt 7)]
+    = Ok ([([w_tool; s__init__], [(w_alpha, VInt 1)]); ([w_tool; w_train], [(s_config, VInt 7)])], RetCall 1) /\
+  auto_cli false conv_simple true (One (CFn w_run [w_p w_hid (TOpt TInt) None; w_p w_sigma TBool None])) [KPos (RBool true)]
+    = Ok ([([w_run], [(w_hid, VNone); (w_sigma, VBool true)])], RetCall 0).
+Proof. vm_compute. auto. Qed.
+
+(* ---- the two guards of the present theorem are needed (open findings on the present code) ---- *)
+(* class Tool: def __init__(self, subcommand: int = 1)  (no public methods), `--subcommand=5`:
+   _run_component pops "subcommand" for every class and takes 5 for a method name: TypeError escapes *)
+Lemma class_subcommand_refuted :
+  exists cs toks,
+    no_class_subcommand_param cs = false /\ no_nullish_str_default cs = true /\
+    auto_cli false conv_simple true cs toks = Err ECrash /\
+    spec conv_simple true cs toks = Done [([w_tool; s__init__], [(s_subcommand, VInt 5)])] RetInstance.
+Proof.
+  exists (One (CCls w_tool [w_p s_subcommand TInt (Some (VInt 1))] [])), [KOpt s_subcommand (RInt 5)].
+  vm_compute. auto.
+Qed.
+
+(* def run(alpha: Optional[str] = "null"), no arguments: the callee receives None, not its default "null" *)
+Definition w_null : str := [110;117;108;108]%N.
+Lemma nullish_default_refuted :
+  exists cs toks,
+    no_class_subcommand_param cs = true /\ no_nullish_str_default cs = false /\
+    auto_cli false conv_simple true cs toks = Ok ([([w_run], [(w_alpha, VNone)])], RetCall 0) /\
+    spec conv_simple true cs toks = Done [([w_run], [(w_alpha, VStr w_null)])] (RetCall 0).
+Proof.
+  exists (One (CFn w_run [w_p w_alpha (TOpt TStr) (Some (VStr w_null))])), [].
+  vm_compute. auto.
+Qed.
